@@ -64,6 +64,15 @@ func (bh *BeaconHandler) VerifSetChainInfo(info *chain2.Info) {
 	bh.chainInfo = info
 }
 
+// VerifSetChainInfoIfCached replaces the cached chain info only if one is cached.
+func (bh *BeaconHandler) VerifSetChainInfoIfCached(info *chain2.Info) {
+	bh.chainInfoLk.Lock()
+	defer bh.chainInfoLk.Unlock()
+	if bh.chainInfo != nil {
+		bh.chainInfo = info
+	}
+}
+
 // VerifLocks reports whether pendingLk and chainInfoLk can be taken for writing right now.
 func (bh *BeaconHandler) VerifLocks() (pending string, info string) {
 	pending, info = "held", "held"
